@@ -114,7 +114,13 @@ impl TcpListener {
                 .expect("client host missing")
                 .tcp
                 .flow_control(client_pair);
-            TcpStream::new(pair, rx, bidi.invert())
+            let bidi = bidi.invert();
+            // Let an inbound RST find (and wake) this side's writer too.
+            world
+                .current_host_mut()
+                .tcp
+                .set_flow_control(pair, bidi.clone());
+            TcpStream::new(pair, rx, bidi)
         });
 
         tracing::trace!(target: TRACING_TARGET, src = ?self.local_addr, dst = ?origin, "Accepted");
